@@ -152,6 +152,7 @@ type eng struct {
 	target    map[uint64]int   // simulated target: k -> ver
 	want      map[uint64]int   // mirror of user-intended table contents: k -> ver
 	wantGen   map[uint64]int   // k -> gen of latest user write (live objects)
+	wantOther map[uint64]int   // k -> the second reconciler's status field as its writes left it (live objects)
 	history   []map[uint64]int // table contents (k->ver) after each user write since last quiescence
 	userRevs  map[uint64]bool
 	changes   []change
@@ -182,15 +183,16 @@ func (e *eng) Gen(r *hx.Rand, n int, tier string, prop string, out *hx.Out) {
 
 func (e *eng) Case(id string) {
 	*e = eng{
-		cfg:      config{rs: 2, minb: 10, maxb: 40},
-		faults:   map[uint64]map[int]bool{},
-		hooks:    map[uint64]map[int][]wr{},
-		attempts: map[uint64]int{},
-		target:   map[uint64]int{},
-		want:     map[uint64]int{},
-		wantGen:  map[uint64]int{},
-		userRevs: map[uint64]bool{},
-		block:    make(chan struct{}),
+		cfg:       config{rs: 2, minb: 10, maxb: 40},
+		faults:    map[uint64]map[int]bool{},
+		hooks:     map[uint64]map[int][]wr{},
+		attempts:  map[uint64]int{},
+		target:    map[uint64]int{},
+		want:      map[uint64]int{},
+		wantGen:   map[uint64]int{},
+		wantOther: map[uint64]int{},
+		userRevs:  map[uint64]bool{},
+		block:     make(chan struct{}),
 	}
 }
 
@@ -340,7 +342,19 @@ func (e *eng) call(op string, txn statedb.ReadTxn, rev statedb.Revision, ob *obj
 			}
 		}
 		if !ob.GetStatus().IsPendingOrRefreshing() {
-			e.flag("C15", "update-given-non-pending-object")
+			// the object handed to Update carries a status that does not ask for reconciliation: allowed only
+			// for a retry (an Error status after a failed Update of this very version)
+			retry := false
+			if ob.GetStatus().Kind == reconciler.StatusKindError {
+				for _, c := range e.hist {
+					if c.k == k && c.gen == ob.Gen && !c.ok && (c.op == "U" || c.op == "UB") {
+						retry = true
+					}
+				}
+			}
+			if !retry {
+				e.flag("C15", "update-given-non-pending-object")
+			}
 		}
 	}
 
@@ -477,6 +491,7 @@ func (e *eng) doWrite(kind string, k uint64) {
 		e.userRevs[rev] = true
 		e.changes = append(e.changes, change{k, e.gen, rev, "put", rev})
 		e.want[k], e.wantGen[k] = e.ver, e.gen
+		e.wantOther[k] = o.Other
 		commit = true
 	case "del":
 		if found {
@@ -487,6 +502,7 @@ func (e *eng) doWrite(kind string, k uint64) {
 			e.changes = append(e.changes, change{k, e.gen, rev, "del", rev})
 			delete(e.want, k)
 			delete(e.wantGen, k)
+			delete(e.wantOther, k)
 			commit = true
 		}
 	case "reins":
@@ -501,11 +517,13 @@ func (e *eng) doWrite(kind string, k uint64) {
 		e.userRevs[rev] = true
 		e.changes = append(e.changes, change{k, e.gen, rev, "put", rev})
 		e.want[k], e.wantGen[k] = e.ver, e.gen
+		e.wantOther[k] = 0
 		commit = true
 	case "stat", "statx":
 		if found && (kind == "statx" || old.GetStatus().Kind != reconciler.StatusKindError) {
 			o := old.Clone()
 			o.Other++
+			e.wantOther[k] = o.Other
 			e.table.Insert(wtxn, o)
 			e.userRevs[e.table.Revision(wtxn)] = true
 			for i := len(e.changes) - 1; i >= 0; i-- {
@@ -643,6 +661,10 @@ func (e *eng) tableOracle() {
 		got[o.K] = o.Ver
 		if g, ok := e.wantGen[o.K]; ok && g != o.Gen {
 			e.flag("C15", "payload-or-generation-clobbered")
+		}
+		if w, ok := e.wantOther[o.K]; ok && w != o.Other {
+			// the field only the second reconciler writes (its status) is not what its last write left
+			e.flag("C15", "other-reconcilers-status-clobbered")
 		}
 		switch o.GetStatus().Kind {
 		case reconciler.StatusKindDone, reconciler.StatusKindError:
